@@ -100,18 +100,29 @@ impl TreeGen {
             tries += 1;
             if own_handler_then_default_branch && out.len() < 2 {
                 if out.is_empty() {
+                    // the branch's own handler: anonymous (macro form) or a named optional leaf ([:IMMediate])
+                    let name = if rng.chance(2, 3) { vec![] } else { gen_name(rng) };
+                    if self.unambiguous && forbidden.iter().any(|o| ambiguous_pair(o, &name)) {
+                        continue;
+                    }
                     let h = self.next_handler;
                     self.next_handler += 1;
-                    out.push(Spec { name: vec![], default: true, kind: SpecKind::Leaf(h) });
+                    out.push(Spec { name, default: true, kind: SpecKind::Leaf(h) });
                 } else {
                     let name = gen_name(rng);
-                    if self.unambiguous && forbidden.iter().any(|o| ambiguous_pair(o, &name)) {
+                    if self.unambiguous && forbidden.iter().chain(std::iter::once(&out[0].name)).any(|o| ambiguous_pair(o, &name)) {
                         continue;
                     }
                     let mut forb: Vec<Vec<u8>> = forbidden.to_vec();
                     forb.push(name.clone());
+                    forb.push(out[0].name.clone());
                     let sub = self.gen_children_opt(rng, depth + 1, &forb, false);
                     out.push(Spec { name, default: true, kind: SpecKind::Branch(sub) });
+                    // the library looks for a default leaf first and a default branch second wherever they stand
+                    // among the children, so either declaration order designates the same nodes
+                    if rng.bool() {
+                        out.swap(0, 1);
+                    }
                 }
                 continue;
             }
